@@ -207,10 +207,19 @@ def main(argv=None) -> int:
     open_known = {k["mechanism"]: k for k in known if k.get("status") == "known"}
     reported_known: dict[str, dict] = {}
     new_violations: list[dict] = []
+    def match_known(mech: str):
+        if mech in open_known:
+            return mech
+        for pat in open_known:  # a trailing '*' in KNOWN_FINDINGS.json matches a mechanism family
+            if pat.endswith("*") and mech.startswith(pat[:-1]):
+                return pat
+        return None
+
     for v in violations:
         mech = v.get("mechanism", "unclassified")
-        if mech in open_known:
-            reported_known.setdefault(mech, v)
+        hit = match_known(mech)
+        if hit is not None:
+            reported_known.setdefault(hit, v)
         else:
             new_violations.append(v)
 
